@@ -227,6 +227,13 @@ def f_cache():
     return "DEFECT field emitted as 'Inner: int'" if re.search(r"^\s+Inner: int$", code, re.M) else "CLEAN"
 
 
+@case("F-DIS")  # DET-5 / C09
+def f_dis():
+    r = with_json('[{"d": "2020-01-02"}]',
+                  lambda p: cli("-m", "Foo", p, "--datetime", "--disable-str-serializable-types", "date"))
+    return "DEFECT disabled type emitted: IsoDateString" if "IsoDateString" in r.stdout else "CLEAN"
+
+
 @case("F-HDR")  # INJ-4 / C19
 def f_hdr():
     r = with_json('[{"a": 1}]', lambda p: cli("-m", "Foo", p, "--preamble", 'x = """hi"""'))
